@@ -312,7 +312,14 @@ func (x *Exec) loopHead(fr *frame, li *loopInfo, st *State) {
 		if old.Loc != nil || old.Clo != nil {
 			continue
 		}
-		st.cells[k] = c.FreshValue("lv."+k.a.Comment, old.T, st.pc)
+		nv := c.FreshValue("lv."+k.a.Comment, old.T, st.pc)
+		// every reference held in a variable was allocated before this point
+		for j, lf := range c.leaves(old.T) {
+			if lf.kind == 'r' && !lf.sort.IsArr() {
+				c.AddFact(st.pc, mk(SBool, "<=", nv.L[j], st.alloc), "reference in a local is allocated")
+			}
+		}
+		st.cells[k] = nv
 	}
 	li.modKeys = m
 	// automatic frame invariants: objects that existed before the loop and are not
@@ -434,7 +441,18 @@ func (x *Exec) autoCandidates(fr *frame, li *loopInfo, pre, st *State, entryAllo
 		id := len(x.cands)
 		g := c.Fresh("houdini", SBool)
 		x.cands = append(x.cands, &candidate{id: id, guard: g, text: text, active: true, declAt: len(c.decls)})
-		c.AddFact(st.pc, implies(g, eval(st)), "candidate "+text)
+		sym := ""
+		for _, pfx := range []string{"frame ", "entry-frame "} {
+			if strings.HasPrefix(text, pfx) {
+				key := strings.TrimPrefix(text, pfx)
+				sym = x.heapGet(st, key, c.heapKeys[key]).S
+			}
+		}
+		if sym != "" {
+			c.AddFactAbout(sym, st.pc, implies(g, eval(st)), "candidate "+text)
+		} else {
+			c.AddFact(st.pc, implies(g, eval(st)), "candidate "+text)
+		}
 		li.candIDs = append(li.candIDs, id)
 		li.candEval = append(li.candEval, eval)
 		if g0 := eval(pre); g0.S != "true" {
@@ -787,25 +805,21 @@ func (x *Exec) contractHavoc(fr *frame, st, pre *State, con *FnContract, callee 
 	if con.ModFresh {
 		old := st.alloc
 		x.bumpAlloc(st)
+		// arrays this state has already touched get their frame now; untouched ones get a
+		// new default generation that is linked to the previous one when first read
 		if ms.all {
-			// cannot enumerate: every known key may have fresh objects
-			for _, k := range sortedKeys(c.heapKeys) {
+			for _, k := range sortedKeys(st.heap) {
 				x.freshFrame(st, k, old)
 			}
-			// unknown keys get fresh defaults
-			x.bumpPrefix(st, "")
+			x.bumpPrefixFrame(st, "", old)
 		} else {
 			for _, p := range sortedKeys(ms.keys) {
-				matched := false
-				for _, k := range sortedKeys(c.heapKeys) {
+				for _, k := range sortedKeys(st.heap) {
 					if strings.HasPrefix(k, p) {
 						x.freshFrame(st, k, old)
-						matched = true
 					}
 				}
-				_ = matched
-				// keys under p not yet materialised: new default generation (sound: unknown)
-				x.bumpPrefix(st, p)
+				x.bumpPrefixFrame(st, p, old)
 			}
 		}
 	}
@@ -819,7 +833,7 @@ func (x *Exec) freshFrame(st *State, key string, oldAlloc Term) {
 	cur := x.heapGet(st, key, srt)
 	na := c.Fresh("Hf", srt)
 	f := fmt.Sprintf("(forall ((r Int)) (! (=> (<= r %s) (= (select %s r) (select %s r))) :pattern ((select %s r))))", oldAlloc.S, na.S, cur.S, na.S)
-	c.AddFact(tTrue, Term{S: f, Sort: SBool, N: 12, UB: -1}, "frame: callee allocates only fresh objects in "+key)
+	c.AddFactAbout(na.S, tTrue, Term{S: f, Sort: SBool, N: 12, UB: -1}, "frame: callee allocates only fresh objects in "+key)
 	st.heap[key] = na
 }
 
